@@ -211,6 +211,40 @@ impl Check for C13 {
         let mut vd = Verdict::default();
         let n = v.out.torrent.pieces();
         vd.class = hash_of(&(n >= 10, v.plan.profile.clone()));
+        // piece choices made outside the chooser (a Have that is answered with a request at once):
+        // the first snapshot in which a peer's assignment changed without a pick for it
+        let mut prev: Option<Snap> = None;
+        let mut picked: BTreeMap<String, Option<usize>> = BTreeMap::new();
+        for e in &v.out.entries {
+            match &e.ev {
+                Ev::Pick { addr, chosen, .. } => {
+                    picked.insert(addr.clone(), *chosen);
+                }
+                Ev::Snapshot(s) => {
+                    for p in &s.peers {
+                        let before = prev.as_ref().and_then(|ps| ps.peers.iter().find(|q| q.addr == p.addr)).and_then(|q| q.piece_index);
+                        if let Some(i) = p.piece_index {
+                            if Some(i) != before && picked.get(&p.addr).cloned().flatten() != Some(i) {
+                                vd.probe("assignments_without_pick");
+                                let not_have = s.status.iter().filter(|x| **x != -1).count();
+                                let others: Vec<&String> = s.peers.iter().filter(|q| q.addr != p.addr && q.piece_index == Some(i) && !q.choked).map(|q| &q.addr).collect();
+                                if not_have >= 10 && !others.is_empty() && s.status.get(i).cloned().unwrap_or(0) != -1 {
+                                    vd.fail(
+                                        "C13",
+                                        "C13.assigned-in-flight",
+                                        format!("{} was given piece {} which {:?} is already fetching, with {} pieces still missing", p.addr, i, others, not_have),
+                                        e.seq,
+                                    );
+                                }
+                            }
+                        }
+                    }
+                    picked.clear();
+                    prev = Some(s.clone());
+                }
+                _ => {}
+            }
+        }
         for e in &v.out.entries {
             if let Ev::Pick { addr, chosen, snap } = &e.ev {
                 vd.probe("picks");
